@@ -13,6 +13,25 @@ CLAIMED = {
             "line is exercised with a synthesised row and near-miss mutations. Complete under the stated bound.",
             "Trusted: Python's re for inner /re/ fragments; the reference matcher mc/ref/rulelang.py; bound: alphabet of 6 tokens / 6 words.",
             "DESIGN.md §3 C07"),
+    "C12": ("stateless model checking of the real annet.parallel under a controlled scheduler on virtual processes/queues: all interleavings with state de-duplication, plus preemption-bounded DFS",
+            "The unmodified Parallel.irun/run, _check_children and _pool_worker run on virtual multiprocessing primitives; every "
+            "scheduling decision (worker steps, feeder flushes, process exits, parent polls) is enumerated. Small configurations "
+            "are explored to closure over all interleavings (states de-duplicated on the implementation's own frames), larger "
+            "ones with a preemption bound; every execution is judged: delivered multiset == submitted, payloads, termination, no hang.",
+            "Trusted: the virtual Queue/Process semantics in mc/sched.py (feeder flush before exit; timed get raises Empty only on an empty pipe); task bodies pure; no external kill.",
+            "DESIGN.md §3 C12"),
+    "C18": ("exhaustive enumeration of the finite device database (168 sequences x synthesised models x vendor registration orders x software strings) on the real HardwareView/Registry/RulebookProvider",
+            "The space is finite and covered completely: every devdb sequence gets validated model strings; truth of all sequences and "
+            "abbreviations, all template predicates, vendor choice under all rotations/permutations of registration, and rulebook "
+            "loading/determinism on fresh providers are compared with a naive regex-chain reference.",
+            "Trusted: Python re; mc/hwmodels.py synthesiser (every model re-validated by re.search); devdb.json read as data.",
+            "DESIGN.md §3 C18"),
+    "C19": ("bounded-exhaustive enumeration of Entire-generator sets x listing permutations x old file maps x reload flags through run_file_generators -> PCDeployerJob.parse_result / pc_diff",
+            "Complete under the bound (1-3 generators over 2 paths, 4 contents, reload strings, safe flags; all permutations; all old maps; "
+            "entire_reload yes/no/force; acl_safe): winner selection, upload decision, uploaded bytes, reload attachment and pc_diff are "
+            "compared with a table-driven reference. Four recorded known findings (line-diff based upload decision).",
+            "Trusted: mc/ref/filedev.py decision table; harness DeployDriver with empty command lists; stage-2 de-duplication keyed on the fields parse_result reads (guarded by a recording OldNewResult).",
+            "DESIGN.md §3 C19"),
 }
 
 NOT_YET = {}
@@ -54,7 +73,7 @@ manifest = {
     ],
     "checks": checks,
     "not_applicable": na,
-    "notes": "bin/check Cxx quick|thorough; evidence/Cxx.json rewritten on every run; known_findings.json lists recorded genuine defects by signature.",
+    "notes": "bin/check Cxx quick|thorough; evidence/Cxx.json rewritten on every run; known_findings.txt lists recorded genuine defects by signature.",
 }
 json.dump(manifest, open(os.path.join(ROOT, "MANIFEST.json"), "w"), indent=1)
 print("claimed:", sorted(CLAIMED), "not claimed:", [x["property_id"] for x in na])
